@@ -26,6 +26,13 @@ pub const SITE_WITH_FACES_SORT_LOOP: u32 = 3;
 pub const SITE_DECOMPOSE_NEXT: u32 = 4;
 /// One iteration of the ring search in `Space::knn`.
 pub const SITE_KNN_RING: u32 = 5;
+/// Inside `ConvexCell::clip_by_plane`: per tested vertex, after the removal
+/// pass, per newly created vertex.
+pub const SITE_CLIP_VERTEX_LOOP: u32 = 6;
+pub const SITE_CLIP_REMOVED: u32 = 7;
+pub const SITE_CLIP_NEW_VERTEX: u32 = 8;
+/// One pop of the heap of the periodic nearest-neighbour iterator.
+pub const SITE_NN_HEAP_POP: u32 = 9;
 
 /// Register the callback invoked at scheduling points inside a cell.
 pub fn set_sched_point(f: Option<fn(u32)>) {
